@@ -341,13 +341,17 @@ PROPS["C17"] = {
             "Per (sender, target) the received sequence must equal the sent one (exactly once, in order, with the sender PID), replies must carry the request's token; afterwards Start on a running "
             "remote must fail harmlessly, Stop().Wait() twice must return, and a TCP dial to the address must be refused.  Unreachable episodes (3 in quick, 16 in thorough, in parallel): k messages "
             "to an address nobody listens on -> RemoteUnreachableEvent for it and exactly k DeadLetterEvents naming its stream writer; then the peer is started on that address and a later send must "
-            "arrive there (an extra dead letter instead = no fresh attempt).  Non-trivial = >= 2 senders and >= 2 targets, or an unreachable episode.",
-    "technique": "property-based testing (rapid) of generated sender/target populations over real remotes; per-flow sequence oracle closed by final markers; scripted unreachable episodes with a dead-letter count oracle",
+            "arrive there (an extra dead letter instead = no fresh attempt).  Peer-restart episodes (6 in quick, 60 in thorough): node A talks to 8..32 peers over established connections "
+            "(per-peer sequence closed by a marker), every peer's remote is stopped, A must publish RemoteUnreachableEvent per address and its stream writers unregister, new peers come up on the same "
+            "addresses and what A sends then must arrive, once and in order; a DeadLetterEvent naming the old stream writer = no fresh attempt.  "
+            "Non-trivial = >= 2 senders and >= 2 targets, or an unreachable / peer-restart episode.",
+    "technique": "property-based testing (rapid) of generated sender/target populations over real remotes; per-flow sequence oracle closed by final markers; scripted unreachable and peer-restart (connection loss) episodes with a dead-letter oracle",
     "level_text": "Generated-input search over real TCP; batch formation and interleavings are sampled by timing (C15 is the deterministic counterpart for the encoding).",
-    "level_note": "loss shows only through a final marker that overtook a message; nothing arriving at all is a timeout = inconclusive; connection loss in mid-stream is not generated",
-    "assumptions": ENG_ASSUME + ["loopback ports come from a per-process block below the kernel's ephemeral range (10000 + (pid mod 400)*50 + k); the address of an unreachable peer is held by a bound, non-listening socket"],
+    "level_note": "loss shows only through a final marker that overtook a message; nothing arriving at all is a timeout = inconclusive; connection loss is generated only between conversations (peer stop / restart), not while messages are in flight",
+    "assumptions": ENG_ASSUME + ["loopback ports come from a per-process block below the kernel's ephemeral range (10000 + (pid mod 110)*200 + k); the address of an unreachable peer is held by a bound, non-listening socket"],
     "legs": [rapid("flows", "net", "TestRemoteFlows", 60, 1200, shards=(2, 12)),
-             plain("unreach", "net", "TestUnreachable", timeout={"quick": 300, "thorough": 600})],
+             plain("unreach", "net", "TestUnreachable", timeout={"quick": 300, "thorough": 600}),
+             plain("restart", "net", "TestPeerRestart", timeout={"quick": 300, "thorough": 1200})],
 }
 
 PROPS["C19"] = {
